@@ -1,28 +1,40 @@
 (* Proofs/C20Pins.v — C20, T0: the literals Model/FixWs.v and Model/Wrap.v were written against, compared with
-   what the harness regenerates from /repo on every run (Gen/C20Lit.v).  In Coq strings a backslash is an
-   ordinary character, so the right-hand sides below are the raw regex sources. *)
+   what the harness regenerates from /repo on every run (Gen/C20Lit.v).  Boolean comparisons (always compile); the
+   harness evaluates each one inside coqc on every run and records it as a T0 obligation, so that a changed literal
+   is reported as such and the theorems about the models stay checked.  In Coq strings a backslash is an ordinary
+   character, so the expected values below are the raw regex sources. *)
 From GV Require Import Base.Str Gen.C20Lit.
 
-Lemma pin_fw_subs : fw_subs =
+Definition pairs_eqb := list_eqb (pair_eqb String.eqb String.eqb).
+
+Definition pin_fw_subs : bool := pairs_eqb fw_subs
   [ ("[ ]+\n", s1 nl);
     ("\s+\n\s*\n\s*\n(class|def|@|#|_)", "\n\n\n\1");
     ("\s+\n\s*\n((    )+)(\w|_|@|#)", "\n\n\1\3") ].
-Proof. reflexivity. Qed.
 
-Lemma pin_numbered_list_regex : numbered_list_regex = "^\d+\. ".
-Proof. reflexivity. Qed.
+Definition pin_numbered_list_regex : bool := String.eqb numbered_list_regex "^\d+\. ".
 
-Lemma pin_wrap_subs : wrap_subs = [ (":\n([^\n])", ":\n\n\1") ].
-Proof. reflexivity. Qed.
+Definition pin_wrap_subs : bool := pairs_eqb wrap_subs [ (":\n([^\n])", ":\n\n\1") ].
 
-Lemma pin_wrap_textwrap_calls :
-  wrap_tw_wrap_kwargs = [("break_long_words", "False"); ("break_on_hyphens", "False"); ("width", "width - offset")] /\
-  wrap_tw_fill_kwargs = [("break_long_words", "False"); ("break_on_hyphens", "False"); ("initial_indent", "' ' * indent");
-                         ("subsequent_indent", "' ' * indent + ' ' * get_subsequent_line_indentation_level(token.strip())");
-                         ("text", "token"); ("width", "width")] /\
-  wrap_numbers = ["0"; "0.75"; "1"].
-Proof. repeat split; reflexivity. Qed.
+Definition pin_wrap_textwrap_wrap_call : bool := pairs_eqb wrap_tw_wrap_kwargs
+  [("break_long_words", "False"); ("break_on_hyphens", "False"); ("width", "width - offset")].
 
-Lemma pin_rst : rst_search_re = "[|*`_[\]]" /\
-  rst_wrap_kwargs = [("indent", "indent"); ("offset", "indent + 3"); ("width", "width - indent")].
-Proof. split; reflexivity. Qed.
+Definition pin_wrap_textwrap_fill_call : bool := pairs_eqb wrap_tw_fill_kwargs
+  [("break_long_words", "False"); ("break_on_hyphens", "False"); ("initial_indent", "' ' * indent");
+   ("subsequent_indent", "' ' * indent + ' ' * get_subsequent_line_indentation_level(token.strip())");
+   ("text", "token"); ("width", "width")].
+
+Definition pin_wrap_numbers : bool := list_eqb String.eqb wrap_numbers ["0"; "0.75"; "1"].
+
+Definition pin_rst : bool := String.eqb rst_search_re "[|*`_[\]]" &&
+  pairs_eqb rst_wrap_kwargs [("indent", "indent"); ("offset", "indent + 3"); ("width", "width - indent")].
+
+(* on the tree the models were written against, every pin holds *)
+Definition all_pins : list (string * bool) :=
+  [("fix_whitespace: the three re.sub patterns and replacement templates, in order", pin_fw_subs);
+   ("lines.NUMBERED_LIST_REGEX", pin_numbered_list_regex);
+   ("wrap: the colon re.sub pattern and template", pin_wrap_subs);
+   ("wrap: keyword arguments of the textwrap.wrap call", pin_wrap_textwrap_wrap_call);
+   ("wrap: keyword arguments of the textwrap.fill call", pin_wrap_textwrap_fill_call);
+   ("wrap: numeric constants (0, 0.75, 1)", pin_wrap_numbers);
+   ("rst: the re.search pattern and the arguments of the wrap call", pin_rst)].
